@@ -184,7 +184,9 @@ func (nal *NewsArtList) Read(p []byte) (int, error) {
 	n := copy(p, out[nal.readOffset:])
 	nal.readOffset += n
 
-	return n, io.EOF
+	// Report io.EOF only once everything has been read: a record can be larger than the caller's buffer
+	// (io.ReadAll starts with 512 bytes; title and poster alone can take up to 510).
+	return n, nil
 }
 
 type NewsFlavorList struct {
